@@ -1,6 +1,7 @@
 import Kolibrie.Lemmas.SyntaxFuel
 import Kolibrie.Lemmas.Lexer
 import Kolibrie.Lemmas.ScanTok
+import Kolibrie.Lemmas.Arith
 /-!
 # C16 — the query parser is total and faithful
 
@@ -296,5 +297,44 @@ theorem operators_longest_match :
     ∀ i j : Fin Kolibrie.Extracted.filterOperators.length, i.val < j.val →
       ¬ (Kolibrie.Extracted.filterOperators[i.val]'i.isLt).toList <+: (Kolibrie.Extracted.filterOperators[j.val]'j.isLt).toList := by
   decide
+
+/-! ## FILTER arithmetic (`sparql_filter_operand` / `_product` / `_arithmetic`, model `Model/Arith.lean`) -/
+
+section Arithmetic
+open Kolibrie.Arith
+
+/-- a chain `x0 - x1 - … - xn` of ANY length, over any operands, groups to the left (`((x0 - x1) - x2) - …`) -/
+theorem arith_chain_groups_left (x0 : String) (xs : List String) :
+    parseA (Tok.atom x0 :: chainToks xs) = some (xs.foldl (fun a x => .sub a (.opnd x)) (.opnd x0)) := by
+  unfold parseA
+  have hlen : (Tok.atom x0 :: chainToks xs).length = 2 * xs.length + 1 := by
+    induction xs with
+    | nil => rfl
+    | cons y ys ih => simp [chainToks, List.flatMap_cons] at ih ⊢; omega
+  obtain ⟨f, hf⟩ : ∃ f, 4 * (Tok.atom x0 :: chainToks xs).length + 8 = f + 3 :=
+    ⟨4 * (Tok.atom x0 :: chainToks xs).length + 5, by omega⟩
+  rw [hf]
+  simp only [parseSum]
+  rw [parseProduct_atom f x0 xs]
+  simp
+  rw [sumLoop_chain xs _ (f + 2) (by rw [hlen] at hf; omega)]
+
+/-- every expression with two operators over any three operands, in both groupings, printed with minimal or with
+    redundant parentheses, parses back to itself (so `a - b - c` and `a - (b - c)` are told apart, and
+    precedence between the two levels is respected) -/
+theorem arith_two_ops_roundtrip (extra : Bool) (a b c : String) (o1 o2 : AExpr → AExpr → AExpr)
+    (h1 : o1 = .add ∨ o1 = .sub ∨ o1 = .mul ∨ o1 = .div) (h2 : o2 = .add ∨ o2 = .sub ∨ o2 = .mul ∨ o2 = .div) :
+    parseA (printA extra (o2 (o1 (.opnd a) (.opnd b)) (.opnd c))) = some (o2 (o1 (.opnd a) (.opnd b)) (.opnd c)) ∧
+    parseA (printA extra (o1 (.opnd a) (o2 (.opnd b) (.opnd c)))) = some (o1 (.opnd a) (o2 (.opnd b) (.opnd c))) := by
+  rcases h1 with rfl | rfl | rfl | rfl <;> rcases h2 with rfl | rfl | rfl | rfl <;> cases extra <;> exact ⟨rfl, rfl⟩
+
+/-- the grouping matters for the value: `10 - 4 - 3` is 3 under the parser's tree, not 9 -/
+example (v : String → Int) (h10 : v "10" = 10) (h4 : v "4" = 4) (h3 : v "3" = 3) :
+    (parseA [.atom "10", .op '-', .atom "4", .op '-', .atom "3"]).map (eval v) = some 3 := by
+  have : parseA [.atom "10", .op '-', .atom "4", .op '-', .atom "3"] =
+      some (.sub (.sub (.opnd "10") (.opnd "4")) (.opnd "3")) := rfl
+  simp [this, eval, h10, h4, h3]
+
+end Arithmetic
 
 end Kolibrie.Props.C16
